@@ -74,10 +74,35 @@ impl<W: 'static, R: 'static, T: 'static> EvaluationCell<W, R, T> {
                     .unwrap()
                     .scope_ancestor_and_cell(*ancestor_depth - ScopeDepth(1), *cell_idx);
                 match cell.as_ref(ancestor.template.as_ref()) {
-                    Self::Uninitialized | Self::PendingCapture { .. } => Ok(Self::PendingCapture {
+                    Self::Uninitialized => Ok(Self::PendingCapture {
                         depth: *ancestor_depth,
                         cell: *cell_idx,
                     }),
+                    Self::PendingCapture { depth, cell } => {
+                        // the ancestor's own capture was pending when its template was made, the captured cell may
+                        // have been filled since: take the value now, the new function can outlive the ancestor's call
+                        let mut scope = ancestor;
+                        let (mut depth, mut cell) = (*depth, *cell);
+                        loop {
+                            match scope
+                                .try_scope_ancestor_at_depth(depth)
+                                .map(|next| (next, next.cells[cell].as_ref(next.template.as_ref())))
+                            {
+                                Some((next, Self::PendingCapture { depth: d, cell: c })) => {
+                                    scope = next;
+                                    depth = *d;
+                                    cell = *c;
+                                }
+                                Some((_, Self::Value(v))) => break Ok(Self::Value(v.clone())),
+                                _ => {
+                                    break Ok(Self::PendingCapture {
+                                        depth: *ancestor_depth,
+                                        cell: *cell_idx,
+                                    })
+                                }
+                            }
+                        }
+                    }
                     Self::Value(v) => Ok(Self::Value(v.clone())),
                     Self::LocalRecourse => Ok(Self::Recourse {
                         depth: *ancestor_depth,
@@ -445,14 +470,17 @@ impl<'a, W: 'static, R: 'static, T: 'static> RuntimeScope<'a, W, R, T> {
         }
     }
 
-    fn scope_ancestor_at_depth(&self, depth: ScopeDepth) -> &Self {
+    fn try_scope_ancestor_at_depth(&self, depth: ScopeDepth) -> Option<&Self> {
         let mut current = self;
         for _ in 0..depth.0 {
-            current = current
-                .scope_parent
-                .expect("ran out of scope parents at runtime");
+            current = current.scope_parent?;
         }
-        current
+        Some(current)
+    }
+
+    fn scope_ancestor_at_depth(&self, depth: ScopeDepth) -> &Self {
+        self.try_scope_ancestor_at_depth(depth)
+            .expect("ran out of scope parents at runtime")
     }
 
     fn scope_ancestor_and_cell(
